@@ -182,9 +182,44 @@ def check_pair(case):
     return res
 
 
+def check_muxtable(case):
+    """a multi-input PMux with a 2-D ig table: the lookup uses the voltage of the SELECTED input (the first one is dead here)."""
+    res = Res()
+    t = case["table"]
+    for V2, Iq in case["queries"]:
+        comps = [dict(n="S1", k="Source", a=dict(vo=0.0 if case["first"] == "zero" else case["v1"], rs=0.0), p=[], g="", r=""),
+                 dict(n="S2", k="Source", a=dict(vo=V2, rs=0.0), p=[], g="", r=""),
+                 dict(n="X", k="PMux", a=dict(rs=0.0, ig=t), p=["S1", "S2"], g="", r="", plist=True),
+                 dict(n="L", k="ILoad", a=dict(ii=Iq), p=["X"], g="", r="")]
+        spec = dict(name="muxtable", phases=None, comps=comps)
+        try:
+            df, _ = quiet_call(build(spec).solve)
+        except Exception as e:
+            res.v(("C10.mux-raises", type(e).__name__), str(e))
+            continue
+        r = observe(df)[("", "X")]
+        res.stats["evaluations"] += 1
+        sel = V2 if case["first"] == "zero" else case["v1"]
+        if g(r, "Vin (V)") != sel:
+            res.v(("C10.mux-not-pinned",), "Vin %r expected %r" % (g(r, "Vin (V)"), sel))
+            continue
+        val = g(r, "Iin (A)") - g(r, "Iout (A)")
+        flat = [v for row in t["ig"] for v in row]
+        tol = 1e-7 * max(flat) + 2e-8
+        kind, e = expectation(t, "ig", Iq, abs(sel))
+        bad = (abs(val - e) > tol) if kind == "exact" else (val < e[0] - tol or val > e[1] + tol)
+        if bad:
+            res.v(("C10.mux-table-lookup", "first-input-" + case["first"]), "table %r io=%r, selected input at %r V (first input at %r V): read %r expected %r" % (t["ig"], Iq, sel, comps[0]["a"]["vo"], val, e))
+    res.nontrivial = 1
+    res.classes.add("mux-table")
+    return res
+
+
 def check_case(case):
     if case.get("fam") == "pair":
         return check_pair(case)
+    if case.get("fam") == "muxtable":
+        return check_muxtable(case)
     res = Res()
     carrier, table = case["carrier"], case["table"]
     z = zkey(carrier)
@@ -245,6 +280,13 @@ def gen_cases(tier):
         for t in tables(tier, zkey(carrier)):
             yield dict(carrier=carrier, table=t, tier=tier)
     yield from gen_pairs(tier)
+    vals = VALS["ig"]
+    for io, vi in (([0.0, 0.2, 0.9], [2.5, 5.0]), ([0.1, 0.5], [1.0, 3.3, 12.0])):
+        for k in range(3):
+            rows = [[vals[(i + j + k) % 3] for j in range(len(io))] for i in range(len(vi))]
+            queries = [[v, i] for v in (vi[0], vi[-1], (vi[0] + vi[-1]) / 2, vi[-1] * 2) for i in (io[0] if io[0] > 0 else io[1], io[-1], (io[0] + io[-1]) / 2)]
+            yield dict(fam="muxtable", table={"vi": vi, "io": io, "ig": rows}, first="zero", v1=0.0, queries=queries)
+            yield dict(fam="muxtable", table={"vi": vi, "io": io, "ig": rows}, first="live", v1=vi[0], queries=queries)
 
 
 def gen_pairs(tier):
